@@ -91,10 +91,10 @@ def render (L : Layout) (T : List Stmt) : Str := renderList L [] 0 T
 
 /-! ### well-formedness -/
 
-/-- blank, LF, CR -/
-def AllWs (w : Str) : Prop := ∀ c ∈ w, c = ' ' ∨ c = '\n' ∨ c = '\r'
+/-- blank, tab, LF, CR -/
+def AllWs (w : Str) : Prop := ∀ c ∈ w, c = ' ' ∨ c = '\t' ∨ c = '\n' ∨ c = '\r'
 
-/-- every white-space field of the layout is made of blanks and line breaks (no tabs) -/
+/-- every white-space field of the layout is made of blanks, tabs and line breaks -/
 def LayoutOk (L : Layout) : Prop :=
   ∀ p, AllWs (L p).pre ∧ AllWs (L p).post ∧ AllWs (L p).close ∧ AllWs (L p).after
 
